@@ -59,6 +59,7 @@ class LTransport(Transport):
         self.log, self.connect_error, self.disconnect_error, self.slow = log, connect_error, disconnect_error, slow
         self.connects = self.disconnects = 0
         self.hang = False
+        self.read_fails = False
 
     async def connect(self):
         self.connects += 1
@@ -82,6 +83,9 @@ class LTransport(Transport):
         self.log.append(("M", "disconnect", True))
 
     async def read(self):
+        if self.read_fails:
+            self.log.append(("M", "read-fails", None))
+            raise ex.TransportFailedError("link lost")
         await asyncio.sleep(3600 * 24)
         return ""
 
@@ -248,6 +252,12 @@ def run_scenario(base, sc):
                     log.append(("M", "mutate", None))
                 for _ in range(sc["k"]):
                     await asyncio.sleep(0)
+                if sc.get("listen_fails"):
+                    # the application listens and the link is lost: the transport error leaves the context
+                    tr.read_fails = True
+                    log.append(("M", "body-end", False))
+                    async for _ in gw.listen():
+                        pass
                 if sc["body_raises"]:
                     log.append(("M", "body-end", False))
                     raise BodyError("application error")
@@ -255,6 +265,7 @@ def run_scenario(base, sc):
         except BaseException as e:  # noqa: BLE001
             result["exc1"] = e
         tr.connect_error = None
+        tr.read_fails = False
         if sc["edit_file"]:
             # another program (or an operator) added node 77 to the file between the sessions
             try:
@@ -356,6 +367,13 @@ def oracle_two(sc, r):
         fs.append(("C16:reentry", f"{len(r['tasks_left'])} background task(s) still running after the second session"))
     want_disc = (0 if sc["connect_fails"] else 1) + 1
     tr_disc = sum(1 for x in r["log"] if x[1] == "disconnect")
+    if sc.get("listen_fails"):
+        i_re = [x[1] for x in r["log"]].index("reenter")
+        d1 = sum(1 for x in r["log"][:i_re] if x[1] == "disconnect")
+        d2 = tr_disc - d1
+        if d1 < 1 or d2 != 1:
+            fs.append(("C16:reentry", f"the first session ended with the transport error of listen(): transport.disconnect was called {d1} time(s) in it and {d2} time(s) in the second session (expected: at least once, exactly once)"))
+        tr_disc = want_disc
     if tr_disc != want_disc:
         fs.append(("C16:reentry", f"transport.disconnect was called {tr_disc} times over the two sessions, expected {want_disc}"))
     if r["reg"] is not None:
@@ -535,13 +553,14 @@ def run(ctx, model_available=True):
                             mutate_before=1, mutate_after=0, slow=slow, old=old_file,
                             exit="timeout", cancel_after=0, cancel_at=at))
     # the same Gateway object entered a second time
-    for k, cf, br in ((0, False, False), (4, False, False), (2, False, True), (0, True, False), (3, True, False)):
+    for k, cf, br, lf in ((0, False, False, False), (4, False, False, False), (2, False, True, False), (0, True, False, False),
+                          (3, True, False, False), (0, False, False, True), (3, False, False, True)):
         for k2, wait2 in ((0, 0), (5, 0), (0, 1), (0, SAVE_INTERVAL + 1), (2, 2 * 3600)):
             for edit in (False, True):
                 sid += 1
                 scs.append(dict(id=sid, k=k, wait=wait2, connect_fails=cf, body_raises=br, disconnect_fails=False,
                                 mutate_before=1, mutate_after=0, slow=0, old=old_file if (k + k2) % 2 == 0 else None,
-                                two=True, k2=k2, edit_file=edit))
+                                two=True, k2=k2, edit_file=edit, listen_fails=lf))
     d = Driver()
     exp = []
     for sc in scs:
